@@ -639,6 +639,9 @@ class Exec:
                 yield st, obj.cls.name
                 return
             raise Unsupported(f"class attribute {obj.cls.name}.{name}")
+        if isinstance(obj, ExtVal):
+            yield st, ExtVal(f"{obj.name}.{name}")
+            return
         if isinstance(obj, FuncVal) and name == "__name__":
             yield st, obj.node.name
             return
